@@ -430,7 +430,7 @@ class C08(Property):
     id = "C08"
     prop_modules = ["CobaVerif.Props.C08"]
     quick_n = 3000
-    thorough_n = 40000
+    thorough_n = 30000
     search_n = 1500
     case_timeout = 300
     workers = 8
